@@ -49,6 +49,22 @@ const (
 	DefRepeatInterval = 4 * time.Hour
 )
 
+// MatcherPath is the model's own identity of a route: the matchers along the path from the root, each
+// node's list in a canonical order - independent of sibling positions and of the order in which a
+// configuration file (or a Go map) lists them.
+func (n *Node) MatcherPath() string {
+	var parts []string
+	for x := n; x != nil; x = x.Parent {
+		var ms []string
+		for _, m := range x.AllMatchers {
+			ms = append(ms, fmt.Sprintf("%s%s%q", m.Name, m.Op, m.Value))
+		}
+		sort.Strings(ms)
+		parts = append([]string{"{" + strings.Join(ms, ",") + "}"}, parts...)
+	}
+	return strings.Join(parts, "/")
+}
+
 // Resolve builds the resolved tree: every option is inherited from the parent unless the
 // child sets it; labels are merged; mute/active intervals are NOT inherited.
 func Resolve(root *RouteSpec) *Node {
